@@ -24,7 +24,7 @@ fn spec() -> Spec {
         rule: "each case = non-degenerate robot with dof 5 or 6 (64 sign patterns, offsets) bare / behind an axial tool / on an arbitrary base / both; pose = reference FK of a generated q; J6 values 0, +-pi, 1e3, random; inverse_5dof and inverse_continuing_5dof on every robot, inverse and inverse_continuing additionally on dof-5 robots; every answer: tool point, tool axis, J6 bit-identical to the caller's value; generating J1..J5 present when non-singular; never empty on a pose produced by the robot's own FK; non-trivial = call returned >= 1 vector; distinct = hash(robot, stack, q, j6, entry) Workload additions: a quarter of the robots with limits on J6 only, asymmetric about zero; the sentinel's own J6 entry (0, up to whole turns); previous = an answer for the same tool point with the axis turned by 5..30 degrees; poses whose wrist centre lies exactly on the joint-2 axis of the other shoulder branch; dof-5 robots with an unblocked sixth sign.",
         assumptions: vec![
             "accuracy 1e-6 m / 1e-6 rad plus slack 1e-9 + 1e-12*reach",
-            "generating J1..J5 expected only when |sin t5|, |sin(t3+psi3)| and wrist-centre/axis-1 distance >= 1e-3",
+            "generating J1..J5 expected only when |sin t5| and the wrist-centre/axis-1 distance (relative to reach) are >= 1e-3 and |sin(t3+psi3)| >= 1e-5 (the closed form is exact up to rounding, so next to the elbow singularity the originating vector is still reproduced)",
             "with the CONSTRAINT_CENTERED sentinel ([NaN,0,0,0,0,0]) as previous the caller's J6 is the sentinel's own entry 0, accepted up to whole turns (the solver normalises angles near the constraint centres)",
         ],
         minimums: vec![("oracle_evals", 10_000_000, 250_000_000), ("dof5_plain_inverse_calls", 100_000, 2_500_000), ("answers_checked", 3_000_000, 70_000_000)],
@@ -97,6 +97,15 @@ fn run_case(_kind: &str, idx: u64, rng: &mut Rng, mon: &mut Mon, _tier: Tier) {
         target = ref_forward(&rp, &layers, &q);
         mon.count("poses_inside_the_wrist_band");
     }
+    // a twelfth of the postures has the elbow 1.2e-5 .. 1e-3 rad from fully stretched / folded (not AT the
+    // singularity): the elbow-up and elbow-down rows of the closed form are then two distinct answers a few 1e-5 rad apart
+    let near_stretch = rng.bool(0.08) && rp.signs[2] != 0;
+    if near_stretch {
+        let t3 = -rp.psi3() + if rng.bool(0.5) { 0.0 } else { PI } + rng.sign() * rng.logu(1.2e-5, 1e-3);
+        q[2] = (t3 + rp.offsets[2]) * rp.signs[2] as f64;
+        target = ref_forward(&rp, &layers, &q);
+        mon.count("postures_next_to_the_elbow_singularity");
+    }
     let (q, target) = (q, target);
     let pose = fr_to_iso(&target);
     let j6 = *rng.pick(&[0.0, PI, -PI, 1e3, rng.clone().range(-2.0 * PI, 2.0 * PI), q[5]]);
@@ -125,7 +134,9 @@ fn run_case(_kind: &str, idx: u64, rng: &mut Rng, mon: &mut Mon, _tier: Tier) {
         prev = CONSTRAINT_CENTERED;
     }
     let m = sing_measures(&rp, &q);
-    let nonsing = m.wrist.min(m.elbow).min(m.shoulder) >= 1e-3;
+    // (the closed form is exact up to rounding, so next to the ELBOW singularity the originating vector is still
+    // reproduced to ~1e-11/elbow; it is expected down to an elbow measure of 1e-5. Wrist and shoulder keep 1e-3.)
+    let nonsing = m.wrist.min(m.shoulder) >= 1e-3 && m.elbow >= 1e-5;
     let reach = rp.reach() + layers.iter().map(|l| match l { Layer::Tool(f) | Layer::Base(f) | Layer::Frame(f) => norm(f.p), _ => 0.0 }).sum::<f64>();
     // (the 5-DOF solvers cross-check the flange position only; behind a tool the axis accuracy acts on its length)
     let lever: f64 = layers.iter().map(|l| match l { Layer::Tool(f) | Layer::Frame(f) => norm(f.p), _ => 0.0 }).sum();
